@@ -96,6 +96,8 @@ def decode_roots(crate):
             out.append(b)
         elif k in ("deserialize", "deserialize_iterator") or k.startswith("<DeserializerIterator<T> as Iterator>"):
             out.append(b)
+        elif k == "AdtMetadata::new":
+            out.append(b)        # runs inside the first decode / encode call of a derived type (lazy metadata static)
     return out
 
 
@@ -111,4 +113,6 @@ def encode_roots(crate):
             out.append(b)
         elif k in ("serialize", "serialize_to_bytes", "serialize_to_byte_vec", "serialize_iterator"):
             out.append(b)
+        elif k == "AdtMetadata::new":
+            out.append(b)        # runs inside the first decode / encode call of a derived type (lazy metadata static)
     return out
